@@ -20,6 +20,7 @@ import math
 import time
 
 import c06_gen as G
+import c06_pairs as CP
 import c06_pool
 import codec_common as cc
 import core
@@ -43,6 +44,12 @@ EXPORT_DECLARED_OK = 8 << 20
 CHUNK = 3000
 READ_VOLUME_CONST = 1 << 20
 MAX_HARD = 12                 # hangs / worker deaths after which the search stops (the verdict is a violation anyway)
+# time against the cost theorem: CPU seconds of PSDImage.open <= max(TIME_FLOOR, TIME_FACTOR * c * ticks), ticks = the
+# counting twin's ticks for THIS input (open.cost; by open_steps_bound <= the polynomial bound, which is used instead when
+# the input has no twin answer), c = seconds per tick measured in this run (95th percentile over the inputs seen so far)
+TIME_FLOOR = 1.0
+TIME_FACTOR = 30.0
+FLUSH = None                  # stream sentinel: run what has been generated so far before generating more
 
 
 # ------------------------------------------------------------------------------------------------ helpers
@@ -338,6 +345,19 @@ def gen_stream(ctx, quick, info):
         for fld, vn, off, raw in val:
             yield case(b[:off] + raw + b[off + len(raw):], "header-valid", f"{fld}={vn}", fx=nm, hdr_valid=fld,
                        hdr_value=vn, force_model=True, label="FileHeader")
+    # ---- PAIRS of co-located extremal fields, for every count-driven loop of the regenerated ReadLoops table
+    yield from gen_pairs(ctx, quick, info, case, syn)
+    # ---- NESTING chains for every recursive container of the cost model, depth by depth
+    yield FLUSH
+    dead = info.setdefault("dead_chains", set())
+    info["nest_stages"] = []
+    for depths in CP.stages(info.get("D") or 123):
+        row = CP.nest_stage(depths, dead)
+        info["nest_stages"].append({"depths": list(depths), "inputs": len(row), "chains_dropped_before": len(dead)})
+        for chain, b, why in row:
+            yield case(b, "nest", why, chain=chain, force_model=True, counted=True, force_export=False,
+                       label=chain.split("/")[0])
+        yield FLUSH
     # ---- fixtures
     donors = []
     t_trace = 0.0
@@ -438,6 +458,71 @@ def gen_stream(ctx, quick, info):
         yield case(bb, "random:" + why.split("[")[0], why)
 
 
+def gen_pairs(ctx, quick, info, case, syn):
+    """count = max x every length / size field of the first item, for every count-driven loop the table names (while
+    loops, item fields alone, in the thorough tier): on fixtures that contain an instance (quick: the three smallest and
+    one more drawn from ctx.rng; thorough: the 24 smallest and eight more) and on a synthetic minimal instance (the enclosing tagged block / image
+    resource transplanted into the small synthetic document, PSD and PSB; the skeleton loops: the synthetic documents)"""
+    import extract_c06
+    from concurrent.futures import ProcessPoolExecutor
+    rng = ctx.rng
+    fxbytes = info["fxbytes"]
+    t0 = time.time()
+    spans = [sp for sp in extract_c06.loop_spans(core.REPO / "src" / "psd_tools")
+             if sp["kind"] == "count" or (not quick and sp["kind"] == "while")]
+    keys = [CP.loop_key(sp) for sp in spans]
+    cands = [p for p in cc.fixtures() if p.stat().st_size <= MODEL_MAX]
+    with ProcessPoolExecutor(min(12, len(cands) or 1)) as ex:
+        idx = list(ex.map(CP.index_file, [(p, spans) for p in cands], chunksize=4))
+    info["t_pairs_index"] = round(time.time() - t0, 1)
+    per = {}
+    paths = {p.name: p for p in cands}
+    for nm, size, found in idx:
+        for k, inst in found.items():
+            per.setdefault(k, []).append((size, nm, inst))
+    for nm, b in syn[:2]:
+        _res, found = CP.find_instances(b, spans)
+        for k, inst in found.items():
+            per.setdefault(k, []).append((len(b), nm, inst))
+    stats = {}
+    for k in keys:
+        hosts = sorted(per.get(k, []), key=lambda x: (x[0], x[1]))
+        st = stats.setdefault(k, {"fixtures_with_instance": len(hosts), "hosts": [], "synthetic": [], "inputs": 0})
+        if not hosts:
+            continue
+        if quick:
+            chosen = hosts[:3] + ([rng.choice(hosts[3:])] if len(hosts) > 3 else [])
+        else:
+            chosen = hosts[:24] + rng.sample(hosts[24:], min(8, len(hosts[24:])))
+        label = k.split(":")[1].split(".")[0]
+        for size, nm, inst in chosen:
+            b = fxbytes.get(nm)
+            if b is None:
+                b = paths[nm].read_bytes()
+                fxbytes[nm] = b
+            st["hosts"].append(nm)
+            for bb, why in CP.pair_mutants(b, inst):
+                st["inputs"] += 1
+                yield case(bb, "pair", f"{k} {why}", fx=nm, label=label, force_export=False)
+        # the synthetic minimal instance
+        size, nm, inst = hosts[0]
+        if inst.get("container"):
+            for version in (1, 2):
+                sb = CP.transplant(fxbytes[nm], inst["container"], version)
+                if sb is None:
+                    continue
+                res, f2 = CP.find_instances(sb, spans, want={k})
+                if res[0] != "ok" or k not in f2:
+                    continue
+                st["synthetic"].append(f"v{version}:{len(sb)}B")
+                for bb, why in CP.pair_mutants(sb, f2[k]):
+                    st["inputs"] += 1
+                    yield case(bb, "pair", f"{k} synthetic-v{version}(from {nm}) {why}", label=label, force_export=False)
+    info["pairs"] = {"loops": len(keys), "loops_with_instance": sum(1 for k in keys if per.get(k)),
+                     "loops_without_instance_in_any_fixture": [k for k in keys if not per.get(k)],
+                     "per_loop": stats, "index_s": info["t_pairs_index"]}
+
+
 # ------------------------------------------------------------------------------------------------ run
 def selftest(ctx, pool):
     """the watchdog must detect each kind of misbehaviour, otherwise nothing it reports can be trusted"""
@@ -482,6 +567,7 @@ def run(ctx):
     # payload registries, the regular expressions of the engine-data tokenizer (tied by `decide` in Props/C06.lean section 11)
     ctx.regenerate(extract_c06.gen_alloc_sites)
     ctx.regenerate(extract_c06.gen_read_loops)
+    ctx.regenerate(extract_c06.gen_read_seeks)
     ctx.regenerate(extract_c06_reg.gen_open_registry)
     ctx.regenerate(extract_c06_re.gen_engine_patterns)
     ctx.prove(["PsdVerif.Props.C06"])
@@ -538,6 +624,7 @@ def compare_open_cost(ctx, c, a, r, fxbytes, OC):
         ctx.disagree("open.cost answer not understood", {"answer": a[:4]})
         return
     n = len(c["b"])
+    c["_ticks"] = ticks
     py_ticks = cnt["reads"] + cnt["inits"]
     py_alloc = cnt["bytes"] + cnt["init_bytes"]
     OC["n"] += 1
@@ -613,8 +700,24 @@ def _run(ctx, pool, hello, has_cost, T):
     t_start = time.time()
     stream = gen_stream(ctx, quick, info)
     hard = [0]
-    while not pool.abort:
-        chunk = list(itertools.islice(stream, CHUNK))
+    info["D"] = D_LR16
+    CAL = []               # seconds of CPU per model tick, one entry per input with both numbers
+    exhausted = [False]
+
+    def next_chunk():
+        out = []
+        for c in stream:
+            if c is FLUSH:
+                if out:
+                    return out
+                continue
+            out.append(c)
+            if len(out) >= CHUNK:
+                return out
+        exhausted[0] = True
+        return out
+    while not pool.abort and not exhausted[0]:
+        chunk = next_chunk()
         if not chunk:
             break
         if time.time() - t_start > budget:
@@ -758,7 +861,28 @@ def _run(ctx, pool, hello, has_cost, T):
                 hungry_x.append((ent[1], ent[0]) + ent[2:])
                 if len(slow_x) > 4000:
                     slow_x, hungry_x = top10(slow_x), top10(hungry_x)
-            for sig, what, obs in violations_of(c, r):
+            vs = violations_of(c, r)
+            cpu = om.get("cpu_open")
+            if o and cpu is not None:
+                n_b = len(c["b"])
+                ticks = c.get("_ticks")
+                if ticks is not None and ticks >= 500 and cpu > 0:
+                    CAL.append(cpu / ticks)
+                tk = ticks if ticks is not None else (2105 + 4 * n_b + 168 * min(D_LR16, n_b // 12)) * n_b + 287
+                per_tick = max(1e-6, sorted(CAL)[int(0.95 * (len(CAL) - 1))]) if len(CAL) >= 20 else 5e-6
+                limit_s = max(TIME_FLOOR, TIME_FACTOR * per_tick * tk)
+                if cpu > limit_s:
+                    where_ = o["where"] if o["k"] != "ok" else "accepted"
+                    vs.append((f"C06/open/time-over-cost-bound/{where_}",
+                               f"PSDImage.open of {n_b} bytes used {cpu:.2f} s of CPU; the counting twin needs "
+                               f"{tk} ticks for this input ({'open.cost' if ticks is not None else 'polynomial bound of open_steps_bound'}), "
+                               f"at the {per_tick * 1e6:.2f} us per tick measured in this run x {TIME_FACTOR:.0f} that allows "
+                               f"{limit_s:.2f} s",
+                               {"cpu_open_s": round(cpu, 3), "wall_open_s": round(om.get("t_open", 0), 3), "model_ticks": tk,
+                                "seconds_per_tick_p95": per_tick, "limit_s": round(limit_s, 3), "outcome": o if o["k"] != "ok" else "ok"}))
+            if vs and c.get("chain"):
+                info.setdefault("dead_chains", set()).add(c["chain"])
+            for sig, what, obs in vs:
                 key = (n_changed(c, fxbytes), len(c["b"]))
                 cur = found.get(sig)
                 if cur is None or key < cur["key"]:
@@ -777,6 +901,7 @@ def _run(ctx, pool, hello, has_cost, T):
     T["model_driver"] = round(t_model, 1)
     T["trace_parse"] = info.get("t_trace")
     T["payload_index"] = info.get("t_payload_index")
+    T["pairs_index"] = info.get("t_pairs_index")
 
     # ---- shrink and report
     t0 = time.time()
@@ -784,7 +909,7 @@ def _run(ctx, pool, hello, has_cost, T):
         c = v["case"]
         # header cases are single-field by construction (and a subset of the bytes would be a different value);
         # a hang costs the full wall-clock limit per probe: both are reported as found
-        c2 = c if ("/hang/" in sig or c.get("hdr_invalid")) else shrink(pool, c, sig, fxbytes)
+        c2 = c if ("/hang/" in sig or "/time-over-cost-bound/" in sig or c.get("hdr_invalid")) else shrink(pool, c, sig, fxbytes)
         ctx.fail(sig, v["what"], input_repr(c2, fxbytes, sig), v["observed"],
                  "opening returns a document or raises an ordinary Exception within %.0f s and %d KiB + %d x len(b) of "
                  "resident-set growth; an invalid header is rejected" % (TIMEOUT, RSS_CONST_KB, RSS_FACTOR))
@@ -795,6 +920,11 @@ def _run(ctx, pool, hello, has_cost, T):
 
     # ---- metadata
     slow, hungry = top10(slow), top10(hungry)
+    ctx.extra["pairs"] = info.get("pairs")
+    ctx.extra["nesting"] = {"containers": [nm for nm, _, _ in CP.CONTAINERS], "junk_bytes_behind_every_level": list(CP.JUNK),
+                            "stages": info.get("nest_stages"), "chains_dropped_after_a_failing_input": sorted(info.get("dead_chains") or []),
+                            "seconds_per_tick_p95": (sorted(CAL)[int(0.95 * (len(CAL) - 1))] if CAL else None),
+                            "calibration_inputs": len(CAL), "time_rule": f"cpu(open) <= max({TIME_FLOOR} s, {TIME_FACTOR} x p95 x ticks)"}
     ctx.extra["stream"] = {"cases": n_cases, "model_cases": n_model, "per_section": dict(sorted(sections.items())),
                            "fixtures": info.get("fixtures"),
                            "payload_interior_mutants_by_reader_class": info.get("payload_kinds")}
@@ -843,11 +973,24 @@ def _run(ctx, pool, hello, has_cost, T):
                 "swallowed an opaque payload (engine data, XMP, ICC, strings, paths, patterns ...) in some fixture <= 300 KB, "
                 "a few such payloads under same-length overwrites (tail behind the first / last occurrence of each token "
                 "start the payload contains x 24 fillers; plain anchors; random anchor x injected prefix x filler x window), "
-                "all enclosing length fields untouched. Export calls (every 5th opened input: composite/topil; every 20th and all hand-made ones: "
+                "all enclosing length fields untouched. PAIRS: for every count-driven loop of the regenerated ReadLoops table an "
+                "instance is located in a traced parse (count field = the numeric field in front of the loop whose value is the "
+                "number of iterations observed; first item = the reads of the first iteration) and count = ff.. / 7f.. is "
+                "combined with each of the first %d numeric fields of the first item set to 0, 1, its own size, the size of the "
+                "item header up to it, max - on the fixtures that hold an instance (quick: the three smallest + one drawn; "
+                "thorough: the 24 smallest + eight drawn) and on a synthetic minimal instance (the enclosing block / resource transplanted into the "
+                "synthetic document, PSD and PSB). NESTING: for every recursive container (Lr16 / Lr32 in a record, the chain "
+                "started in the document-level blocks, descriptor in descriptor, list in list, layer groups) depth-d chains "
+                "with 0 / 1 / 8 / 64 junk bytes behind every level, d on a ladder up to the reader's recursion limit + 2, run "
+                "depth by depth (a chain that produced a failing input is dropped). TIME: for every input with a twin answer, "
+                "CPU seconds of PSDImage.open <= max(%.1f s, %.0f x c x ticks) with ticks = open.cost of this input (<= the "
+                "polynomial of open_steps_bound, used when there is no twin answer) and c = the 95th percentile of seconds per "
+                "tick over the inputs of the run so far. Export calls (every 5th opened input: composite/topil; every 20th and all hand-made ones: "
                 "also the first 8 layers' topil/numpy) are violations only for crashes, non-Exceptions, and hangs / "
                 "MemoryErrors on files that DECLARE at most 8 MiB of pixels (the compositor's float32 working set is "
                 "proportional to the declared volume, measured at up to ~45 x)" % (C, TIMEOUT, RSS_CONST_KB, RSS_FACTOR,
-                                                                                    len(BATTERY["reject"]), len(BATTERY["same"])))
+                                                                                    len(BATTERY["reject"]), len(BATTERY["same"]),
+                                                                                    CP.MAX_FIELDS, TIME_FLOOR, TIME_FACTOR))
     ctx.trusted_base = ["Lean kernel", "lean/PsdVerif/Model/Psd.lean (hand transliteration of the skeleton readers, checked by "
                         "this correspondence, not proved equal to the Python)", "harness/c06_worker.py + harness/c06_pool.py (the "
                         "watchdog; self-tested on every run against a busy loop, a sleeping process, a segfault, os._exit, a 3 GiB allocation, "
@@ -873,7 +1016,15 @@ def _run(ctx, pool, hello, has_cost, T):
         "watchdog only (no model)": "PSDImage._init (layer tree) and the export paths composite()/topil()/numpy() with zlib, PIL, "
         "NumPy and the compiled _rle extension; real time and memory of everything",
     }
+    no_inst = (info.get("pairs") or {}).get("loops_without_instance_in_any_fixture") or []
+    if no_inst:
+        ctx.notes.append("count-driven loops of the table with no executed instance in any fixture <= 300 KB (pairs not "
+                         "applied; the export-time loops of compression/* and ImageData are driven by the header and run at "
+                         "export only): " + "; ".join(no_inst))
     ctx.notes += [
+        "read_seeks_tied: the reading functions move the cursor other than by reading at eight reviewed places, none inside a "
+        "loop (regenerated from the AST on every run); the pairs section is the search-side counterpart (count = max together "
+        "with a zero / self-sized length of the first item).",
         "PARTIAL with respect to the property: the theorems bound the MODEL's steps / allocations / outcomes (now for the whole "
         "typed reader: Props/C06.open_steps_bound, ticks + bytes <= (2105 + 4n + 168 min(D, n/12)) n + 287 for every byte string); "
         "real time, memory and interpreter crashes are runtime behaviour that only the watchdog observes, on the inputs of this run.",
@@ -958,7 +1109,13 @@ def replay(ctx, data):
         print(f"input: {len(b)} bytes  ({inp.get('why')})   RLIMIT_AS={hello['rlimit_as']}  limit={TIMEOUT:.0f}s")
         print("status:", r["status"], "stage:", r.get("stage"), "signal:", r.get("signal"), "stack:", r.get("stack"))
         om = r.get("open") or {}
-        print("open:", om.get("open"), "t=%.3fs" % om.get("t_open", 0), "rss growth KiB:", om.get("grow_kb"))
+        print("open:", om.get("open"), "t=%.3fs" % om.get("t_open", 0), "cpu=%.3fs" % om.get("cpu_open", 0), "rss growth KiB:", om.get("grow_kb"))
+        if "/time-over-cost-bound/" in data.get("signature", ""):
+            lim = (data.get("observed") or {}).get("limit_s") or TIME_FLOOR
+            cpu = om.get("cpu_open", 0)
+            print(("VIOLATION-REPRODUCED" if cpu > lim else "not reproduced:"), data.get("signature"),
+                  "- CPU %.2f s of PSDImage.open against the %.2f s the cost bound allowed in the run that found it "
+                  "(%s model ticks)" % (cpu, lim, (data.get("observed") or {}).get("model_ticks")))
         if r.get("export"):
             print("export:", {k: (v.get("cls") or v["k"]) for k, v in r["export"]["ops"].items()}, "t=%.2fs" % r["export"].get("t", 0),
                   "rss growth KiB:", r["export"].get("grow_kb"))
